@@ -2,11 +2,13 @@
 use crate::runner::Tier;
 use crate::PropDef;
 
+pub mod concchecks;
 pub mod seqchecks;
 
 pub fn all() -> Vec<PropDef> {
     let mut v = Vec::new();
     v.extend(seqchecks::defs());
+    v.extend(concchecks::defs());
     v
 }
 
